@@ -244,8 +244,8 @@ TOther ==
   /\ UNCHANGED <<cfg, submitted, subInfo, outcome, okAt, chosen, log, wire, bstate, icount, phase>>
 
 TPanic ==
-  /\ E.ev = "panic"
-  /\ viol' = viol \cup V("no_panic")
+  /\ E.ev \in {"panic", "bad_request"}
+  /\ viol' = viol \cup (IF E.ev = "panic" THEN V("no_panic") ELSE V("wire_request_decodes"))
   /\ stats' = Tick
   /\ UNCHANGED <<cfg, submitted, subInfo, outcome, okAt, chosen, log, wire, bstate, icount, phase>>
 
